@@ -1688,6 +1688,40 @@ pub fn gen_c17(rng: &mut Rng, tier: &str, out: &mut Out) {
     }
 }
 
+/// `MAP text` followed by `SECT a b` operations: whole file, empty ranges, line-aligned ranges
+/// (prefix / suffix / middle, so that parent and section differ in line info, validity,
+/// headers and counts), and arbitrary byte ranges.
+fn section_ops(out: &mut Out, rng: &mut Rng, text: &[u8], n_random: usize) {
+    map_op(out, true, text);
+    let len = text.len();
+    let mut starts: Vec<usize> = vec![0];
+    for (i, &b) in text.iter().enumerate() {
+        if b == b'\n' && i + 1 <= len {
+            starts.push(i + 1);
+        }
+    }
+    let mut emit = |out: &mut Out, a: usize, b: usize| {
+        out.d(format!("SECT {} {}", a, b));
+        out.count("sections");
+    };
+    emit(out, 0, len);
+    emit(out, 0, 0);
+    emit(out, len, len);
+    let k = starts.len();
+    for i in 0..k.min(12) {
+        emit(out, starts[i], len);
+        emit(out, 0, starts[i]);
+    }
+    for _ in 0..n_random {
+        let i = rng.below(k);
+        let j = i + rng.below(k - i);
+        emit(out, starts[i], starts[j].max(starts[i]));
+        let a = rng.below(len + 1);
+        let b = a + rng.below(len + 1 - a);
+        emit(out, a, b);
+    }
+}
+
 pub fn gen_c18(rng: &mut Rng, tier: &str, out: &mut Out) {
     let th = thorough(tier);
     out.d("UUID x".into());
@@ -1761,6 +1795,19 @@ pub fn gen_c18(rng: &mut Rng, tier: &str, out: &mut Out) {
         }
         out.d(format!("UUID {}", hx(&b)));
     }
+    // sub-mappings (`section`) and clones after the parent has been queried: the identifier is a
+    // function of the section's bytes alone
+    for _ in 0..(if th { 300 } else { 40 }) {
+        let text = domain_mapping(rng, &Cfg::domain());
+        section_ops(out, rng, &text, 4);
+    }
+    for (name, text) in corpus_files() {
+        if text.len() > 30_000 {
+            continue;
+        }
+        section_ops(out, rng, &text, 6);
+        out.count(&format!("corpus_sections:{}", name));
+    }
 }
 
 pub fn gen_c19(rng: &mut Rng, tier: &str, out: &mut Out) {
@@ -1817,6 +1864,38 @@ pub fn gen_c19(rng: &mut Rng, tier: &str, out: &mut Out) {
         }
         out.d(format!("META {}", hx(&t)));
         out.count("files");
+    }
+    // physical lines that yield two items (text after a class colon / after a sourceFile header)
+    // around the 50-item horizon of `is_valid`
+    for k in 40..56usize {
+        for two in [&b"o.A -> a: \n"[..], b"o.A -> a:x\n", b"o.A -> a:    void m() -> y\n", b"# {\"id\":\"sourceFile\",\"fileName\":\"X\"} \n", b"o.A -> a:\r\r\n"] {
+            for pos in [0usize, 1, k / 2, k.saturating_sub(1)] {
+                let mut t: Vec<u8> = Vec::new();
+                for i in 0..k {
+                    if i == pos {
+                        t.extend_from_slice(two);
+                    }
+                    t.extend_from_slice(b"# noise\n");
+                }
+                t.extend_from_slice(b"o.B -> b:\n    void run() -> r\n");
+                out.d(format!("META {}", hx(&t)));
+                out.count("two_items_per_line");
+            }
+        }
+    }
+    // sub-mappings after the parent was queried: parent and section differ in every answer
+    for _ in 0..(if th { 600 } else { 60 }) {
+        let mut t: Vec<u8> = Vec::new();
+        let parts: [&[u8]; 6] = [b"o.A -> a:\n    1:2:void m() -> y\n", b"o.B -> b:\n    void m() -> y\n", b"# compiler: R8\n# compiler_version: 1.2\n# min_api: 21\n",
+            b"# compiler: D8\n# min_api: 7\n", b"noise\n", b"o.C -> c:\n    int f -> g\n"];
+        for _ in 0..rng.range(2, 8) {
+            t.extend_from_slice(parts[rng.below(parts.len())]);
+        }
+        section_ops(out, rng, &t, 3);
+    }
+    for _ in 0..(if th { 200 } else { 20 }) {
+        let text = domain_mapping(rng, &Cfg::domain());
+        section_ops(out, rng, &text, 3);
     }
     for n in [255usize, 256, 257, 65535, 65536, 65537] {
         let mut t = String::with_capacity(n * 24);
